@@ -7,7 +7,10 @@ import urwid and copies nothing from it.  Only stdlib + the `wcwidth` package ar
 API
 ===
     vt = VT(cols, rows, *, utf8=True, bce=False, quirks=frozenset(),
-            encoding="latin-1", c1=False, altfont_map="cp437", max_scrollback=10000)
+            encoding="latin-1", c1=False, altfont_map="cp437", max_scrollback=10000, lock_utf8=False)
+        lock_utf8=True: the character set is pinned to UTF-8 (xterm "utf8: always" / a UTF-8 locale):
+        ESC % @ is ignored.  Otherwise ESC % G (and the obsolete linux-console ESC % 8) select UTF-8 and
+        ESC % @ returns to the 8-bit set given by `encoding`; RIS restores the constructor's choice.
 
     vt.feed(data: bytes)        incremental, any chunking gives the same result; never raises
     vt.cols, vt.rows
@@ -201,6 +204,7 @@ class VT:
         c1=False,
         altfont_map="cp437",
         max_scrollback=10000,
+        lock_utf8=False,
     ):
         if cols < 1 or rows < 1:
             raise ValueError("terminal size must be at least 1x1")
@@ -212,6 +216,7 @@ class VT:
         self.rows = rows
         self.utf8 = utf8
         self._utf8_init = utf8
+        self.lock_utf8 = lock_utf8
         self.bce = bce
         self.quirks = quirks
         self.encoding = encoding
@@ -961,9 +966,9 @@ class VT:
                 self.pending_wrap = False
             return
         if inter == "%":
-            if final == "G":
+            if final in "G8":
                 self.utf8 = True
-            elif final == "@":
+            elif final == "@" and not self.lock_utf8:
                 self.utf8 = False
                 self._u_need = 0
             return
@@ -1400,6 +1405,12 @@ def _selftest():
     ok(v.row_text(0)[0] == "漢", "utf-8 split across feeds")
     v = mk(b"\xe6\xbcA\xff\x80\xc0\xafB")
     ok(v.row_text(0).rstrip() == "�A����B", "invalid utf-8 -> U+FFFD per maximal subpart")
+    v = mk(b"\xd0\xb6\x1b%G\xd0\xb6\x1b%@\xd0\xb6\x1b%8\xd0\xb6\x1bc\xd0\xb6", utf8=False, cols=12)
+    ok(v.row_text(0).rstrip() == "Ð¶" and not v.utf8, "RIS restores the 8-bit set")
+    v = mk(b"\xd0\xb6\x1b%G\xd0\xb6\x1b%@\xd0\xb6\x1b%8\xd0\xb6", utf8=False, cols=12)
+    ok(v.row_text(0).rstrip() == "Ð¶жÐ¶ж" and v.utf8, "ESC % G / ESC % @ / ESC % 8 switch the main character set")
+    v = mk(b"\x1b%@\xd0\xb6", utf8=True, lock_utf8=True)
+    ok(v.row_text(0)[0] == "ж", "lock_utf8 ignores ESC % @")
     v = mk(b"\xe9A", utf8=False)
     ok(v.row_text(0)[:2] == "éA", "8-bit mode latin-1")
     v = mk(b"\x1b[5n\x1b[3;4H\x1b[6n\x1b[c\x1b[0c\x1bZ\x1b[>c")
